@@ -92,6 +92,12 @@ def gen(tier, seed):
             i = rng.randint(0, n)
             j = rng.randint(i, n)
             cases.append(span_line(mode, text, list(textgen.linecol(text, i)) + list(textgen.linecol(text, j))))
+        # the same faults with positions that are not a forward range: inverted (a node whose first and last anchor tokens come from
+        # different places - a macro_rules! wrapper - can end before it starts), zero, far outside
+        for q in ([5, 3, 2, 1], [9, 0, 1, 0], [2, 7, 2, 3], [0, 0, 0, 0], [4294967295, 0, 1, 0], [1, 0, 4294967295, 4294967295], [3, 4294967295, 3, 0]):
+            cases.append(span_line(mode, "line one\nline two\nline three\n", q))
+        for _ in range(6 if tier == "quick" else 60):
+            cases.append(span_line(mode, "a\nb\nc\n", [rng.randint(0, 12), rng.randint(0, 9), rng.randint(0, 12), rng.randint(0, 9)]))
     # fixed corner cases (regression corpus)
     for text, q in [("", [1, 0, 1, 0]), ("", [0, 0, 0, 0]), ("é", [1, 0, 1, 1]), ("é", [1, 1, 1, 1]),
                     ("S { name: \"日本語日本語日本語\", age: 31, .. }", [1, 28, 1, 30]),
